@@ -221,6 +221,10 @@ type Frame struct {
 	// function itself or in a predicate helper it delegates to). Paths that
 	// contradict an assumption are infeasible.
 	AssumePath map[string]bool
+	// AssumeEntry: values of loop-carried variables at the START of the path under evaluation (a
+	// path that begins inside a loop body knows the loop condition held when the body was entered);
+	// consulted only for a phi whose incoming edge lies before the path's first block
+	AssumeEntry map[ssa.Value]bool
 }
 
 // Inside returns f for evaluating the body of the innermost callee of chain
@@ -593,10 +597,22 @@ func (f Frame) evalBool(v ssa.Value, p Path, depth int) (t, fs Set, known bool) 
 		return Empty(), full, true
 	case *ssa.Phi:
 		pred := p.Pred(x.Block())
+		selfEdge := false
 		for i, pb := range x.Block().Preds {
 			if pb == pred {
+				if x.Edges[i] == ssa.Value(x) {
+					// unchanged by this iteration: the value the variable had when the iteration began
+					selfEdge = true
+					break
+				}
 				return f.evalBool(x.Edges[i], p, depth+1)
 			}
+		}
+		if b, ok := f.AssumeEntry[v]; ok && (pred == nil || selfEdge) {
+			if b {
+				return full, Empty(), true
+			}
+			return Empty(), full, true
 		}
 		return full, full, false
 	case *ssa.UnOp:
